@@ -1,7 +1,10 @@
 (* drv_al.ml — array-list domain (C07).  Line: "<mode> <alloc_limit> <initial_size> op;op;..."
    (mode d = array_list_* API, j = json_object_array_* API; the model is the same) with
    A<e> add, P<i>,<e> put_idx, I<i>,<e> insert_idx, D<i>,<c> del_idx, H<n> shrink, S sort,
-   G<i> get_idx, B<e> bsearch; <e> is a decimal id or n (NULL).
+   G<i> get_idx, B<e> bsearch, M<k>,<id0> k appends of id0, id0+1, ... (stops at the first
+   refusal); <e> is a decimal id or n (NULL).
+   Sequences (contents, released ids) are run-length encoded: "e", "e*k" (k copies, k >= 3),
+   "e+k" (the k consecutive ids from e, k >= 3), "-" empty.
    Observation per step: "<ret> <length> <size> <released> <contents> <past-end-null>",
    after the last step "F <released by array_list_free>". *)
 open Model
@@ -9,9 +12,34 @@ open Util
 
 let parse_elt s = if s = "n" then None else Some (z_of_string s)
 let elt_str = function None -> "n" | Some x -> string_of_z x
-let ids_str l = if l = [] then "-" else String.concat "," (List.map string_of_z l)
+let one = z_of_int 1
+let seq_str (l : z option list) =
+  let a = Array.of_list l in
+  let n = Array.length a in
+  if n = 0 then "-" else begin
+    let b = Buffer.create 256 in
+    let i = ref 0 in
+    while !i < n do
+      let e = a.(!i) in
+      let r = ref 1 in
+      while !i + !r < n && a.(!i + !r) = e do incr r done;
+      let s = ref 1 in
+      (match e with
+       | Some v0 ->
+         let expect = ref (Z.add v0 one) in
+         while !i + !s < n && a.(!i + !s) = Some !expect do incr s; expect := Z.add !expect one done
+       | None -> ());
+      if !i > 0 then Buffer.add_char b ',';
+      Buffer.add_string b (elt_str e);
+      if !r >= 3 then (Buffer.add_string b (Printf.sprintf "*%d" !r); i := !i + !r)
+      else if !s >= 3 then (Buffer.add_string b (Printf.sprintf "+%d" !s); i := !i + !s)
+      else incr i
+    done;
+    Buffer.contents b
+  end
+let ids_str l = seq_str (List.rev (List.rev_map (fun x -> Some x) l))
 
-type op = Step of alop | Get of z | Bs of elt
+type op = Step of alop | Get of z | Bs of elt | Many of int * z
 
 let parse_op s =
   let body = String.sub s 1 (String.length s - 1) in
@@ -25,14 +53,14 @@ let parse_op s =
   | 'S' -> Step OSort
   | 'G' -> Get (z_of_string body)
   | 'B' -> Bs (parse_elt body)
+  | 'M' -> let (k, i) = two () in Many (int_of_string k, z_of_string i)
   | _ -> failwith "al op"
 
 let size_max = z_of_string "18446744073709551615"
 
 let obs a ret rel =
   let cells = al_cells a in
-  let cs = if cells = [] then "-" else
-    String.concat "," (List.map (function Val e -> elt_str e | Undef -> "U") cells) in
+  let cs = seq_str (List.rev (List.rev_map (function Val e -> e | Undef -> Some (z_of_int (-1))) cells)) in
   let len = al_length a in
   let past = List.for_all (fun i -> al_get a i = GOk None) [len; Z.add len (z_of_int 1); size_max] in
   Printf.sprintf "%s %s %s %s %s %s" ret (string_of_z len) (string_of_z a.asize) (ids_str rel) cs
@@ -58,6 +86,16 @@ let run line =
               | AOk (a', r, rel, _) -> a := a'; out := obs a' (string_of_z r) rel :: !out
               | AFail a' -> a := a'; out := obs a' "-1" [] :: !out
               | AUB -> out := "UB" :: !out; ub := true; raise Exit)
+           | Many (k, id0) ->
+             let r = ref "0" and id = ref id0 and j = ref 0 in
+             while !j < k && !r = "0" do
+               (match al_step al !a (OAdd (Some !id)) with
+                | AOk (a', _, _, _) -> a := a'
+                | AFail a' -> a := a'; r := "-1"
+                | AUB -> out := "UB" :: !out; ub := true; raise Exit);
+               id := Z.add !id one; incr j
+             done;
+             out := obs !a !r [] :: !out
            | Get i ->
              (match al_get !a i with
               | GOk e -> out := obs !a (elt_str e) [] :: !out
